@@ -44,6 +44,9 @@ class Canary:
         out["inline"] = o["inline"].get_html_string(4, "\t")
         out["attrs"] = repr(list(ht.Tag("input", checked=True, value=1.0, tabindex=0, max=1, disabled=False, size=0.0).attrs.items()))
         out["escape"] = ht.html_escape("a\"'\r\n<&>") + "|" + ht.html_escape("a\"'\r\n<&>", attr=True)
+        # values that need escaping in ONE context only (quotes and line breaks matter in attributes, not in text)
+        out["escape.quotes-only"] = ht.html_escape("say \"hi\"\r\n it's", attr=True) + "|" + ht.html_escape("say \"hi\"\r\n it's") + "|" + ht.span("q\"'", title="t\"'\n", data_x="plain").get_html_string()
+        out["escape.text-only"] = ht.html_escape("a<b") + "|" + ht.html_escape("a&b", attr=True) + "|" + ht.html_escape("nothing to do") + "|" + ht.html_escape("nothing to do", attr=True)
         out["css"] = repr(ht.css(font_size="1px", zIndex=0, x=None))
         out["headc"] = ht.head_content(ht.tags.title("canary-hc")).name
         out["textdoc"] = ht.HTMLTextDocument("<head>@@</head>" + out["dep.json"], deps_replace_pattern="@@").render()["html"]
